@@ -5,6 +5,7 @@ import (
 	"fmt"
 	"io"
 	"reflect"
+	"strings"
 	"testing/iotest"
 
 	"github.com/kstenerud/go-concise-encoding/ce"
@@ -88,6 +89,12 @@ func genC16(t *rapid.T, ctx *Ctx) interface{} {
 		FullUnicode: true, MidCharSplit: true, MaxDepth: 3, MaxArr: 30, Budget: 10, NoEdge: true}
 	avoid(ctx, &evOpts, "S59-marked-node-value", "S35-key-reference", "S34-reference-in-node")
 	evOpts.NoBitArray, evOpts.NoUIDArray = true, true
+	// half of the histories keep coming back to one template (so that what an earlier build left in a
+	// cached builder for that type meets a later, different document for the same type)
+	focus := ""
+	if rapid.Bool().Draw(t, "hasfocus") {
+		focus = rapid.SampledFrom(c16Templates).Draw(t, "focus")
+	}
 	n := rapid.IntRange(2, 8).Draw(t, "nops")
 	for i := 0; i < n; i++ {
 		var op C16Op
@@ -135,6 +142,14 @@ func genC16(t *rapid.T, ctx *Ctx) interface{} {
 			op.Plain = rapid.Bool().Draw(t, "plain")
 			op.DataErr = rapid.Bool().Draw(t, "dataerr")
 			op.Tmpl = rapid.SampledFrom(c16Templates).Draw(t, "tmpl")
+			if focus != "" && rapid.IntRange(0, 3).Draw(t, "usefocus") > 0 {
+				op.Tmpl = focus
+				if strings.Contains(focus, "[4]") || strings.Contains(focus, "[2]") || focus == "struct-with-arrays" {
+					if rapid.IntRange(0, 3).Draw(t, "focuslist") > 0 {
+						op.Events = c16ListDoc(t)
+					}
+				}
+			}
 		}
 		c.Ops = append(c.Ops, op)
 	}
